@@ -36,5 +36,9 @@ PROPS = {
     'C12': dict(modules=['NutsProofs.Props.C12'], suites=[S('db-mixed', (60, 150), (1500, 200))]),
     'C13': dict(modules=['NutsProofs.Props.C13'], suites=[S('db-structs', (40, 150), (1000, 200)), S('db-list', (40, 150), (1000, 200))]),
     'C15': dict(modules=['NutsProofs.Props.C15'], suites=[S('db-merge', (60, 150), (1500, 200))]),
+    'C21': dict(modules=['NutsProofs.Props.C21'],
+                suites=[S('codec', (4, 500), (40, 4000), env_thorough={'VERIF_CODEC_ALLBITS': '1'})],
+                assumptions=['field values within their Go types (sizes < 2^32, ids and timestamps < 2^64); keys non-empty (tx.put rejects empty keys)',
+                             'a flip inside a size field, and truncation, are enumerated against the implementation (tests), not proved: whether the CRC of the differently delimited string collides depends on the following bytes']),
     'C16': dict(modules=['NutsProofs.Props.C16'], suites=[S('db-mcrash', (50, 150), (1200, 200))]),
 }
